@@ -1,7 +1,7 @@
 (* C04 — HTTP/1 connections always progress: no lost wake-ups, all bytes flushed.
    Only statements here; proofs live in H1/FlushProofs.v, H1/ReadBufProofs.v, H1/PollProofs.v. *)
 From AV Require Import Lib.Base Gen.Consts H1.ReadBuf H1.ReadBufProofs H1.Flush H1.FlushProofs
-     H1.Gates H1.GatesCfg H1.GatesProofs H1.PollProofs.
+     H1.Gates H1.GatesCfg H1.GatesProofs H1.PollProofs H1.PollProofs2.
 
 (* Over ANY history of "append response bytes to write_buf" and "poll_flush against a socket that
    answers each poll_write with Accept k (partial write) | Pending | Ok(0) | Err and the final
@@ -44,6 +44,16 @@ Theorem C04_read_pending_is_registered : forall buf script pl,
   ra_rreg o = true \/ ra_self_wake o = true \/ (pl = Some PPause /\ ra_io_reg o = true).
 Proof. intros buf script pl H. apply read_available_wake. exact H. Qed.
 
+(* at the MAX_BUFFER_SIZE cap no socket read was polled to Pending, so the ONLY wake-ups available
+   are the forced self-wake and the payload's io waker; the code self-wakes for every payload status
+   except Pause (alive consumer applying back-pressure, io waker registered by need_read): in
+   particular for Dropped (drain mode), where no waker of any kind exists *)
+Theorem C04_cap_wake_decision : forall st : option pstatus,
+  (cap_self_wake st = true \/ st = Some PPause) /\
+  cap_self_wake (Some PDropped) = true /\ cap_self_wake (Some PRead) = true /\ cap_self_wake None = true /\
+  cap_self_wake (Some PPause) = false.
+Proof. intro st. split; [apply cap_decision_sound|repeat split]. Qed.
+
 (* internal source "a complete message sits in read_buf and the gates of poll_request are open":
    nobody but the task itself can signal it.  Right after every poll_request it is absent ... *)
 Theorem C04_poll_request_leaves_no_stall_source : forall wbs r h431 fx (x : sim),
@@ -74,14 +84,32 @@ Theorem C04_repaired_queue_drain_wakes :
   p' = PPend /\ started x' = 27 /\ stall_source c x' = false /\ rb (m x') = 0 /\ bad x' = false.
 Proof. vm_compute. repeat split. Qed.
 
-(* FULL STATEMENT (not proved; see notes/C04.md):
-     forall c F x r, c_fix21 c = true \/ ~ queue_full_at_poll_request x r ->
-       let '(x', p) := poll c F x r in p = PPend -> bad x' = false ->
-       stall_source c x' = true -> o_wake x' = true.
-   Proved part: C04_poll_request_leaves_no_stall_source (every decode pass is complete and a closed
-   gate means no stall source at that point) and the two witnesses above.  Missing: the invariant
-   through poll_response (queue pops re-open the queue gate; a consumer that takes a chunk re-opens
-   the payload gate and wakes the io waker registered by need_read) up to the end of the poll. *)
+(* NO LOST WAKE-UP for the internal source, on the repaired dispatcher (dd2b74c), for EVERY poll of
+   the composer: if the poll returns Pending while a decodable message sits in read_buf behind open
+   gates, the task has woken itself.  Premises: the state is between polls of a well-formed run
+   (payload decoder not at "0 remaining", non-empty request heads: both are invariants of [poll],
+   next theorem; SHUTDOWN not yet set) and the request-body gate was not the closed one when
+   poll_request ran at the top of this poll (payload not Paused).
+   NOT covered (partial): a poll that starts with the payload Paused -- there the wake-up comes from
+   the consumer through the io waker registered by need_read; proving it needs the registration
+   tracked on the target channel through queue pops, and the model would have to include the
+   close-for-unread-payload path for a handler that answers while its body is paused. *)
+Theorem C04_no_lost_decode_wake : forall wbs r h431 F (x : sim) (rd : round) (x' : sim),
+  let c := std_cfg wbs r h431 true in
+  shut x = false -> cpl (m x) <> Some 0 -> Forall pos_head (todo x) ->
+  poll c F x rd = (x', PPend) -> bad x' = false ->
+  need_read_status (m (at_poll_request c x rd)) <> Some PPause ->
+  stall_source c x' = true -> o_wake x' = true.
+Proof.
+  intros wbs r h431 F x rd x' c Hs Hc Hp Hpoll Hb Hn Hst.
+  apply (no_lost_decode_wake c F x rd x'); auto. vm_compute. reflexivity.
+Qed.
+
+Theorem C04_wellformed_is_invariant : forall wbs r h431 fx F (x : sim) (rd : round) x' p,
+  poll (std_cfg wbs r h431 fx) F x rd = (x', p) ->
+  (bad x = true \/ cpl (m x) <> Some 0) -> Forall pos_head (todo x) ->
+  (bad x' = true \/ cpl (m x') <> Some 0) /\ Forall pos_head (todo x').
+Proof. intros wbs r h431 fx F x rd x' p H. exact (poll_preserves_wf _ F x rd x' p H). Qed.
 
 (* bounded-response liveness of the write side: against a socket whose first answer in every poll
    accepts at least one byte, |write_buf| polls empty the buffer, with everything on the wire *)
@@ -91,11 +119,35 @@ Theorem C04_flush_drains_within_partial : forall (s : fstate) (ops : list fop),
   s_failed s' = true \/ (s_buf s' = [] /\ s_wire s' = s_wire s ++ s_buf s).
 Proof. exact flush_drains_within. Qed.
 
-(* FULL STATEMENT of termination (not proved): from a state with the peer's EOF delivered, all
-   handler and body scripts exhausted and a socket that eventually accepts, `poll` returns
-   Ready within |write_buf| + |messages| + 2 further polls.  Proved: the flush part above; the
-   shutdown epilogue is exercised by the correspondence (every generated EOF scenario ends in
-   PDone on both sides) but not proved. *)
+(* TERMINATION AFTER EOF, explicit bound.  From a state in which the peer's EOF has been processed
+   (READ_DISCONNECT), no request is running or queued, no error is waiting to be surfaced and no
+   socket answers are left over -- whatever is in write_buf, SHUTDOWN set or not -- against a
+   socket that in every round is idle or accepts at least one byte: the connection future
+   completes with Ready(Ok) no later than the round carrying the (|write_buf| + 1)-th accepting
+   answer; in particular within |write_buf| + 1 polls against an always-accepting socket.
+   NOT covered (partial): states with requests still queued or a handler / response body still
+   running at EOF (their completion is exercised by the correspondence and the "no termination"
+   oracle on every generated EOF scenario, not proved). *)
+Theorem C04_terminates_after_eof : forall wbs r h431 fx F (rs : list round) (x : sim),
+  (1 <= F)%nat -> Tail x ->
+  Forall (fun rd => acc_round rd || idle_round rd = true) rs ->
+  wb (m x) < count_acc rs ->
+  snd (polls (std_cfg wbs r h431 fx) F x rs) = PDone.
+Proof. intros. apply terminates_after_eof; assumption. Qed.
+
+Theorem C04_terminates_within : forall wbs r h431 fx F (x : sim) (rs : list round),
+  (1 <= F)%nat -> Tail x -> Forall (fun rd => acc_round rd = true) rs ->
+  lenN rs = wb (m x) + 1 ->
+  snd (polls (std_cfg wbs r h431 fx) F x rs) = PDone.
+Proof. intros. apply terminates_within; assumption. Qed.
+
+(* non-vacuity of the two theorems above: a Tail state with 5 unflushed bytes and a byte-wise socket *)
+Example C04_termination_example :
+  let c := std_cfg 32768 H1_LW_BUFFER_SIZE 123 true in
+  let x := upd_m (fun s => set_rd_disc true (set_wb 5 s)) (sim_init [] []) in
+  let rs := repeat (mk_round 0 false [WAccept 1] [] false) 6 in
+  Tail x /\ snd (polls c 8 x (firstn 4 rs)) = PPend /\ snd (polls c 8 x (firstn 5 rs)) = PDone /\ snd (polls c 8 x rs) = PDone.
+Proof. vm_compute. repeat split. Qed.
 
 (* non-vacuity: partial writes, a Pending in the middle, completion *)
 Example C04_example :
